@@ -6,6 +6,7 @@ use vsim::{
     ctx_frames::CtxFrames,
     ctx_probes::CallingContexts,
     ctx_spans::CtxSpans,
+    file_e2e::FileE2e,
     fsim::Fsim,
     otlp_sim::OtlpSim,
     choices::Choices,
@@ -38,21 +39,27 @@ fn engines_for(property: &str) -> Vec<(Box<dyn Engine>, u64, u64)> {
     match property {
         "C08" => vec![
             (Box::new(ChanInline), 1_000_000, 20_000_000),
-            (Box::new(ChanThreads), 20_000, 600_000),
+            (Box::new(ChanThreads), 100_000, 3_000_000),
             (Box::new(CallingContexts), 200, 200),
+            (Box::new(FileE2e), 30_000, 1_000_000),
         ],
-        "C06" | "C07" | "C09" => vec![
+        "C07" | "C09" => vec![
             (Box::new(ChanInline), 1_000_000, 20_000_000),
-            (Box::new(ChanThreads), 20_000, 600_000),
+            (Box::new(ChanThreads), 100_000, 3_000_000),
+            (Box::new(FileE2e), 30_000, 1_000_000),
         ],
-        "C03" => vec![(Box::new(CtxFrames), 60_000, 2_000_000)],
-        "C04" => vec![(Box::new(CtxSpans { focus: "C04" }), 60_000, 2_000_000)],
-        "C05" => vec![(Box::new(CtxSpans { focus: "C05" }), 60_000, 2_000_000)],
-        "C18" => vec![(Box::new(CtxSpans { focus: "C18" }), 60_000, 2_000_000)],
-        "C12" => vec![(Box::new(OtlpSim { focus: "C12" }), 4_000, 150_000)],
-        "C14" => vec![(Box::new(OtlpSim { focus: "C14" }), 4_000, 150_000)],
+        "C06" => vec![
+            (Box::new(ChanInline), 1_000_000, 20_000_000),
+            (Box::new(ChanThreads), 100_000, 3_000_000),
+        ],
+        "C03" => vec![(Box::new(CtxFrames), 200_000, 6_000_000)],
+        "C04" => vec![(Box::new(CtxSpans { focus: "C04" }), 150_000, 5_000_000)],
+        "C05" => vec![(Box::new(CtxSpans { focus: "C05" }), 300_000, 8_000_000)],
+        "C18" => vec![(Box::new(CtxSpans { focus: "C18" }), 150_000, 5_000_000)],
+        "C12" => vec![(Box::new(OtlpSim { focus: "C12" }), 40_000, 1_500_000)],
+        "C14" => vec![(Box::new(OtlpSim { focus: "C14" }), 60_000, 2_000_000)],
         "C10" => vec![(Box::new(Fsim { mode: "C10" }), 5_000, 200_000)],
-        "C11" => vec![(Box::new(Fsim { mode: "C11" }), 200_000, 5_000_000)],
+        "C11" => vec![(Box::new(Fsim { mode: "C11" }), 1_000_000, 30_000_000)],
         _ => vec![],
     }
 }
@@ -63,6 +70,7 @@ fn engine_by_name(name: &str) -> Option<Box<dyn Engine>> {
         "chan-threads" => Some(Box::new(ChanThreads)),
         "calling-contexts" => Some(Box::new(CallingContexts)),
         "ctx-frames" => Some(Box::new(CtxFrames)),
+        "file-e2e" => Some(Box::new(FileE2e)),
         "otlp-delivery" => Some(Box::new(OtlpSim { focus: "C12" })),
         "otlp-routing" => Some(Box::new(OtlpSim { focus: "C14" })),
         "ctx-spans-tree" => Some(Box::new(CtxSpans { focus: "C04" })),
@@ -97,7 +105,7 @@ fn main() {
                     seed,
                     runs: runs_override.unwrap_or(if thorough { *thor } else { *quick }),
                     threads: threads(),
-                    max_wall_s: if thorough { 1500.0 } else { 150.0 },
+                    max_wall_s: if thorough { 2400.0 } else { 240.0 },
                     verif_dir: verif_dir(),
                     label: engine.name().to_string(),
                     shard: (0, 1),
